@@ -10,7 +10,8 @@ spec/Intentions.tla (+ IntentionsMC, IntentionsTrace), harness/cmd/h-intent.
      Identity-addressed histories (legacy UUID API: create, update BY ID that may move source/destination between
      exact and wildcard, remove by ID) are generated for the legacy table and for IntentionMutation by LegacyID.
   3. h-intent applies every history to a fresh real state.Store in five representations and records
-     Store.Intentions / IntentionMatch / IntentionMatchOne / IntentionDecision / AuthorizeIntentionTarget.
+     Store.Intentions / IntentionMatch / IntentionMatchOne / IntentionDecision / AuthorizeIntentionTarget and
+     Store.IntentionTopology (all universe services registered in the catalog; every target, both directions, both defaults).
   4. TLC (IntentionsTrace) computes the set each history denotes and judges every recorded answer and the
      order-independence of the answers.
 """
@@ -35,6 +36,8 @@ DOC = {
     "match-order": "match results are in precedence order",
     "decision": "IntentionDecision (both routes, both defaults, AllowPermissions on/off) = action of the single most "
                 "specific matching intention, else the default; HasPermissions/HasExact/DefaultAllow as the spec says",
+    "topology": "Store.IntentionTopology(target, upstreams|downstreams, default) = the registered services (target excluded) whose pair with the "
+                "target is decided 'may connect' by the single most specific matching intention (allow, or L7 permissions), else by the default",
     "authorize": "connect.AuthorizeIntentionTarget: match = wildcard-aware name+peer match, auth = action is allow",
     "write-accepted": "every write the representation can hold is accepted by the store; an identity-addressed write (create / update by ID / "
                       "remove by ID) is accepted exactly when the spec accepts it (unknown identity or key taken = refused, nothing changes)",
@@ -129,9 +132,20 @@ def stats_of(rows, st):
             o = run["obs"]
             st["distinct_observations"] += 1
             st["answers_judged"] += len(o["dec"]) * 2 + len(o["auth"]) + len(o["msrc"]) + len(o["mdst"]) + 1
+            st["answers_judged"] += len(o.get("topo", []))
             for d in o["dec"]:
                 st["bits"][d[5]] += 1
                 st["bits"][d[6]] += 1
+                if d[4] == "deny" and d[5][1] == "1":
+                    st["l7_default_deny_pairs"] += 1
+            # topology answers under default deny for a target that has an L7 intention but no plain allow
+            l7t = {(i[0] if i[3] == "l7" else None) for i in o["list"]} | {(i[2] if i[3] == "l7" else None) for i in o["list"]}
+            for t in o.get("topo", []):
+                st["topology_answers"] += 1
+                if t[3]:
+                    st["topology_nonempty"] += 1
+                if t[2] == "deny" and t[3] and t[0] in l7t:
+                    st["topology_default_deny_nonempty_with_l7_target"] += 1
             st["list_len"][len(o["list"])] += 1
 
 
@@ -177,6 +191,7 @@ def run(tier):
         traces.append(("random", tp))
 
         st = {"groups": 0, "histories": 0, "groups_with_permutations": 0, "distinct_observations": 0, "answers_judged": 0,
+              "l7_default_deny_pairs": 0, "topology_answers": 0, "topology_nonempty": 0, "topology_default_deny_nonempty_with_l7_target": 0,
               "bits": collections.Counter(), "list_len": collections.Counter()}
         samples = []
         pred_hits = collections.Counter()
@@ -212,6 +227,8 @@ def run(tier):
                 "denied by an intention under default allow": any(b[0] == "0" and b[3] == "1" for b in bits),
                 "L7 on top": any(b[1] == "1" for b in bits), "exact/exact on top": any(b[2] == "1" for b in bits),
                 "groups with several orders": st["groups_with_permutations"] > 0,
+                "pair decided by an L7 intention under default deny": st["l7_default_deny_pairs"] > 0,
+                "non-empty topology under default deny for a target with an L7 intention": st["topology_default_deny_nonempty_with_l7_target"] > 0,
                 "lists with >= 3 entries": any(k >= 3 for k in st["list_len"])}
         missing = [k for k, v in need.items() if not v]
         if missing:
@@ -227,6 +244,9 @@ def run(tier):
                     "order-independence is actually exercised; evaluations = recorded API answers judged by TLC in distinct observations",
             "model_check": {"MaxN": MC_MAXN[tier], "distinct_sets_x_reps": mc.distinct, "invariants": ["InvKeys", "InvNoTie", "InvFold", "InvFirstMatch", "InvPermFold", "InvDstFirst"],
                             "never_evaluated": mc.coverage_zero[:20]},
+            "pairs_decided_by_an_L7_intention_under_default_deny": st["l7_default_deny_pairs"],
+            "topology_answers_judged": st["topology_answers"], "topology_answers_nonempty": st["topology_nonempty"],
+            "topology_default_deny_nonempty_with_l7_target": st["topology_default_deny_nonempty_with_l7_target"],
             "generation": gens, "random_groups": RANDOM[tier], "groups": st["groups"], "distinct_observations": st["distinct_observations"],
             "decision_summary_histogram(Allowed,HasPermissions,HasExact,DefaultAllow)": dict(bits),
             "list_length_histogram": {str(k): v for k, v in st["list_len"].items()},
@@ -294,10 +314,16 @@ def selftest():
         def swap(e):
             e["runs"][0]["obs"]["list"].reverse()
 
+        def topo(e):
+            t = e["runs"][0]["obs"]["topo"]
+            k = next(i for i, x in enumerate(t) if x[3])
+            t[k][3] = t[k][3][1:]
+
+        bad3 = _run_group(binary, work, "ce-entry", hists, topo)
         bad1 = _run_group(binary, work, "ce-entry", hists, flip)
         bad2 = _run_group(binary, work, "ce-entry", hists, swap)
-        print("selftest: good=%s flipped-decision=%s reversed-list=%s" % (ok.rejects, bad1.rejects, bad2.rejects))
-        good = (not ok.rejects) and any("decision" in n for _, n in bad1.rejects) and any("list-order" in n for _, n in bad2.rejects)
+        print("selftest: good=%s flipped-decision=%s reversed-list=%s dropped-topology-name=%s" % (ok.rejects, bad1.rejects, bad2.rejects, bad3.rejects))
+        good = (not ok.rejects) and any("topology" in n for _, n in bad3.rejects) and any("decision" in n for _, n in bad1.rejects) and any("list-order" in n for _, n in bad2.rejects)
         return 0 if good else 2
     finally:
         shutil.rmtree(work, ignore_errors=True)
